@@ -24,6 +24,21 @@ Fixpoint take_pre (l : list string) : list mac :=
 Fixpoint drop_pre (l : list string) : list string :=
   match l with x :: r => match pre_mac x with Some _ => drop_pre r | None => l end | [] => [] end.
 
+Definition parse_opt1 (x : string) : option (N * bytes) :=
+  match split "="%char x with
+  | [k; v] => match N_of_dec k, bytes_of_tok v with Some k, Some v => Some (k, v) | _, _ => None end
+  | _ => None
+  end.
+Fixpoint parse_optlist (l : list string) : option (list (N * bytes)) :=
+  match l with
+  | [] => Some []
+  | x :: r => match parse_opt1 x, parse_optlist r with Some o, Some os => Some (o :: os) | _, _ => None end
+  end.
+Definition parse_optmap (s : string) : option (list (N * bytes)) :=
+  if String.eqb s "-" then Some [] else parse_optlist (split "."%char s).
+Definition show_optlist (l : list (N * bytes)) : string :=
+  join "." (map (fun p => dec_of_N (fst p) ++ "=" ++ tok_of_bytes (snd p)) l).
+
 Definition dispatch (kind : string) (args : list string) : string :=
   (* hist: all frames through one receive buffer; histf: a fresh buffer per frame.  The model does not
      distinguish them (retained fields are values): any difference is a correspondence failure. *)
@@ -69,6 +84,20 @@ Definition dispatch (kind : string) (args : list string) : string :=
         | None => BADARGS
         end
     | None => BADARGS
+    end
+  else if String.eqb kind "ao" then
+    (* DHCP4.AppendOptions on its own: requested order (hex) and an option map code=hex.code=hex...;
+       answer: number of bytes written and the emitted list (requested part in wire order, remainder ascending) *)
+    match args with
+    | [ord; opts] =>
+        match bytes_of_tok ord, parse_optmap opts with
+        | Some order, Some m =>
+            let l := append_options m order in
+            let n := fold_left (fun a p => a + 2 + N.of_nat (List.length (snd p))) l 0 in
+            out3 (dec_of_N n ++ " " ++ (match l with [] => "-" | _ => show_optlist l end)) "-" "-"
+        | _, _ => BADARGS
+        end
+    | _ => BADARGS
     end
   else if String.eqb kind "src" then
     (* a constant of the Go source by identifier: the value the model hard-codes *)
